@@ -9,7 +9,8 @@ Model driver for C12 (node retirement controller).
                      `VIOLATION <signature> <text>` out (the monitor of `Spec/C12`)
 
 Op lines (a case starts with `reset`):
-  reset k=<kind,kind,...> [stop=later|inline1|inline0]
+  reset k=<kind,kind,...> [stop=later|inline1|inline0] [pf=<0|1,...>]
+                              pf: the cluster provider refuses (1) / accepts (0) the k-th publication of the case
                               kinds: raw | nok | nno | nnl | nem | dead  (empty list: no hosted service);
                               stop: the INodeApp completes StopNode later (op stopdone) / inside the call with true / false
   cmd <name>                  stat | retire | exit | web_nodes | web_retire | web_exit | anything else
@@ -23,7 +24,7 @@ Op lines (a case starts with `reset`):
                               controller: resolving a hosted service does not depend on the node state shown)
 (reset also takes lst=<P|M...>: how the node's service list interleaves configured (P) and
 unconfigured (M) names for the real App.FilterSelfServices; it does not concern the model)
-Observation: `r=<class> pub=<states as the provider saw them> upd=<states as the node issued them> stop=<n> sent=<s<i>:<cmd>,...> st=<state>`
+Observation: `r=<class> pub=<states the provider accepted, in completion order> upd=<states as the node issued them> lost=<states the provider refused> stop=<n> sent=<s<i>:<cmd>,...> st=<state>`
 -/
 namespace Cell2v.Driver.C12
 open Cell2v.Driver Cell2v.NodeCtrl
@@ -68,12 +69,22 @@ def visible (kinds : List Kind) (i : Nat) : Bool :=
   | some .nodeNoListener => false
   | _ => true
 
-def showObs (kinds : List Kind) (r : String) (es : List Evt) (s : St) : String :=
-  let pubs := es.filterMap (fun e => match e with | .pub x => some x.name | _ => none)
+/-- `pf=<0|1,...>`: the k-th provider update of the case fails (1) or succeeds (0; also beyond the list) -/
+def parseScript (ws : List String) : List Bool :=
+  match kv ws "pf" with
+  | none => []
+  | some "" => []
+  | some v => (v.splitOn ",").map (· == "1")
+
+def showObs (kinds : List Kind) (r : String) (es : List Evt) (s : St) (sc : List Bool := []) : String :=
+  let upd := es.filterMap (fun e => match e with | .pub x => some x | _ => none)
+  let pubs := (delivered sc upd).map NS.name
+  let lost := (lostOf sc upd).map NS.name
+  let upd := upd.map NS.name
   let sent := es.filterMap (fun e => match e with
     | .send i c => if visible kinds i then some s!"s{i}:{scmdName c}" else none
     | _ => none)
-  s!"r={r} pub={join "," pubs} upd={join "," pubs} stop={stops es} sent={join "," sent} st={s.st.name}"
+  s!"r={r} pub={join "," pubs} upd={join "," upd} lost={join "," lost} stop={stops es} sent={join "," sent} st={s.st.name}"
 
 def replyOf (es : List Evt) : String :=
   let r : Option Reply := es.findSome? (fun e => match e with | .reply r => some r | _ => none)
@@ -87,6 +98,7 @@ structure DSt where
   kinds : List Kind := []
   st : Option St := none
   held : List Bool := []        -- scripted service still holds an unanswered queryretire
+  script : List Bool := []      -- the cluster provider's remaining fault script
 
 def step (d : DSt) (line : String) : DSt × String :=
   let ws := words line
@@ -94,13 +106,16 @@ def step (d : DSt) (line : String) : DSt × String :=
   | some "reset" =>
     let kinds := parseKinds ws
     let b := boot true kinds (parseMode ws)
-    ({ kinds := kinds, st := some b.1, held := kinds.map (· == Kind.raw) }, showObs kinds "-" b.2 b.1)
+    let sc := parseScript ws
+    ({ kinds := kinds, st := some b.1, held := kinds.map (· == Kind.raw),
+       script := scriptAfter sc (Cell2v.Spec.C12.pubsOf b.2).length }, showObs kinds "-" b.2 b.1 sc)
   | some h =>
     match d.st with
     | none => (d, "bad-op")
     | some s =>
       let fin (r : String) (res : St × List Evt) (d' : DSt := d) : DSt × String :=
-        ({ d' with st := some res.1 }, showObs d.kinds r res.2 res.1)
+        ({ d' with st := some res.1, script := scriptAfter d.script (Cell2v.Spec.C12.pubsOf res.2).length },
+          showObs d.kinds r res.2 res.1 d.script)
       match h with
       | "cmd" =>
         match ws[1]? with
@@ -166,10 +181,11 @@ def parseObs (obs : String) : Option (String × Obs) := do
   let r ← kv ws "r"
   let pubs ← (parseList (← kv ws "pub")).mapM parseNS
   let upd ← (parseList (← kv ws "upd")).mapM parseNS
+  let lost ← (parseList ((kv ws "lost").getD "")).mapM parseNS
   let stops ← kvNat ws "stop"
   let sent := parseSent (← kv ws "sent")
   let st ← parseNS (← kv ws "st")
-  pure (r, { reply := parseReply r st, pubs := pubs, upd := upd, stops := stops, sent := sent, st := st })
+  pure (r, { reply := parseReply r st, pubs := pubs, upd := upd, stops := stops, sent := sent, st := st, lost := lost })
 
 def specStep (m : Option Mon) (line : String) : Option Mon × String :=
   match line.splitOn "\t" with
